@@ -149,6 +149,46 @@ func runForkSuite(seed uint64, n int, out *Out, stats *Stats) {
 		} else if len(after) != len(before) || (len(after) > 0 && blockHashHex(after[len(after)-1]) != blockHashHex(before[len(before)-1])) {
 			out.Violation("C06", id, "kept-but-changed\tthe round reports the chain kept but the chain differs")
 		}
+		// a full re-sync offer in which one block is replaced by a valid sibling while the blocks
+		// above it are the host's own (so they do not link to the substitute), plus one new block
+		if r.Chance(1, 3) {
+			hostNow := w.host.AllBlocks()
+			sib := w.helpers[0].AllBlocks()
+			if r.Chance(1, 2) {
+				sib = w.helpers[2].AllBlocks()
+			}
+			if len(hostNow) >= 3 {
+				ext := NewNode(w.set, w.wallets[4].Addr)
+				ext.Pool.Validate(hostNow[0].Timestamp())
+				helperSync(ext, w.now, []*Peer{honestPeer("10.0.0.1:10600", w.host)})
+				ext.Pool.Validate(hostNow[len(hostNow)-1].Timestamp() + w.set.Interval)
+				extChain := MirrorBlocks(ext.AllBlocks())
+				j := 0
+				if r.Chance(2, 3) {
+					j = 1 + r.Intn(len(hostNow)-2)
+				}
+				if len(extChain) == len(hostNow)+1 && j < len(sib) && blockHashHex(sib[j]) != blockHashHex(hostNow[j]) {
+					cand := cloneJBlocks(extChain)
+					cand[j] = MirrorBlock(sib[j])
+					var sp []*Peer
+					for k := 0; k < 1+r.Intn(3); k++ {
+						page := cand
+						sp = append(sp, &Peer{Target: fmt.Sprintf("10.6.%d.%d:10600", i%250, k), Serve: func(h uint64) ([]byte, error) {
+							if h != 0 {
+								return nil, fmt.Errorf("no incremental answer")
+							}
+							return mustJSON(page), nil
+						}})
+					}
+					before2 := w.host.AllBlocks()
+					res2 := w.rec.Update(w.now+w.set.Interval, sp)
+					stats.Count(fmt.Sprintf("forks/substitute@%d=%s", minInt(j, 3), res2[:indexOrLen(res2, ':')]))
+					if strings.HasPrefix(res2, "replaced") {
+						out.Violation("C06", id, fmt.Sprintf("unverified	a chain whose block %d does not link to its predecessor was adopted in a full re-sync (host had %d blocks)", j+1, len(before2)))
+					}
+				}
+			}
+		}
 		// a second round and a tick keep the case going
 		if r.Chance(1, 2) {
 			w.rec.Update(w.now, peers[:1+r.Intn(len(peers))])
